@@ -88,6 +88,10 @@ func (a *ApplicationDefined) Unmarshal(rawPacket []byte) error {
 		return errPacketTooShort
 	}
 
+	if header.Type != TypeApplicationDefined {
+		return errWrongType
+	}
+
 	if (int(header.Length)+1)*4 != len(rawPacket) {
 		return errAppDefinedInvalidLength
 	}
